@@ -36,6 +36,8 @@ class SimFS(object):
         self.killed = False
         self.fail_at = {}         # effect number -> errno (ENOSPC/EIO)
         self.short_at = {}        # effect number -> max bytes for aio_write
+        self.short_mod = 0        # k > 0: every write whose keyed hash is
+                                  # 0 mod k is a short (partial) write
         self.tmp_n = 0
         self.reads = 0
         self.fd_pos = {}          # fd -> read offset for os.read()
@@ -124,8 +126,23 @@ class SimFS(object):
         if self.killed:
             raise Killed()
         if path not in self.files:
-            raise FileNotFoundError(errno.ENOENT, _os.strerror(errno.ENOENT),
-                                    path)
+            if not flags & _os.O_CREAT:
+                raise FileNotFoundError(errno.ENOENT,
+                                        _os.strerror(errno.ENOENT), path)
+            n, err = self._effect('create', path)
+            if err:
+                raise OSError(err, _os.strerror(err))
+            self.files[path] = bytearray()
+            self._after(n)
+        elif flags & _os.O_CREAT and flags & _os.O_EXCL:
+            raise FileExistsError(errno.EEXIST, _os.strerror(errno.EEXIST),
+                                  path)
+        elif flags & _os.O_TRUNC and len(self.files[path]):
+            n, err = self._effect('truncate', path)
+            if err:
+                raise OSError(err, _os.strerror(err))
+            del self.files[path][:]
+            self._after(n)
         fd = self.next_fd
         self.next_fd += 1
         self.fds[fd] = self.files[path]
@@ -183,6 +200,11 @@ class SimFS(object):
         n, err = self._effect('write', '?')
         lat = self._lat('w', n)
         short = self.short_at.get(n)
+        if short is None and self.short_mod and len(piece) > 1 and \
+                H(self.world.sched_seed, 'shortw', self.label, n) % \
+                self.short_mod == 0:
+            # a legal partial write: the caller has to write the rest
+            short = max(1, len(piece) // 2)
 
         def complete():
             if self.killed:
@@ -324,6 +346,14 @@ class SimFileObj(object):
         return False
 
 
+class _Stat(object):
+    def __init__(self, size, isdir=False):
+        self.st_size = size
+        self.st_mode = 0o040755 if isdir else 0o100644
+        self.st_mtime = self.st_ctime = self.st_atime = 0.0
+        self.st_nlink = 1
+
+
 class OsShim(object):
     """what slimta.diskstorage sees as `os`"""
 
@@ -388,6 +418,31 @@ class OsShim(object):
     def fsync(self, fd):
         if self._fs.killed:
             raise Killed()
+
+    def fstat(self, fd):
+        fs = self._fs
+        if fs.killed:
+            raise Killed()
+        if fd not in fs.fds:
+            raise OSError(errno.EBADF, _os.strerror(errno.EBADF))
+        return _Stat(len(fs.fds[fd]))
+
+    def stat(self, path):
+        fs = self._fs
+        if fs.killed:
+            raise Killed()
+        if path in fs.files:
+            return _Stat(len(fs.files[path]))
+        if path in fs.dirs:
+            return _Stat(0, isdir=True)
+        raise FileNotFoundError(errno.ENOENT, _os.strerror(errno.ENOENT), path)
+
+    lstat = stat
+
+    def makedirs(self, path, mode=0o777, exist_ok=False):
+        self._fs.mkdir(path)
+
+    mkdir = makedirs
 
     fdatasync = fsync
 
